@@ -363,7 +363,22 @@ def _drive(ctx, dom, h, cases, mode):
             ctx.fail(klass, what[:500], out, domain=dom if n == 0 else None)  # a case counts once as failed
 
 
+def deductive(ctx):
+    """engine D: Lmod.execute — the environment mapping handed to the launcher is a copy of os.environ
+    made in this call, only the module assignments are stored into it, and the argv is the native one"""
+    from contracts import lmod as L
+    from pyvc.verify import verify, summarize
+
+    res = verify(ctx, L.contract())
+    summarize(ctx, res, classify=lambda rec, case: "caller-environment-dropped" if rec["clause"] == "exit.child-environment-starts-from-the-callers" else None)
+
+
 def run(ctx):
+    deductive(ctx)
+    _run_bounded(ctx)
+
+
+def _run_bounded(ctx):
     ctx.level = "other"
     ctx.explanation = (
         "Real Job.run() of a shell task that prints its own environment, through lmod.Environment with a simulated "
